@@ -112,10 +112,10 @@ def run(ctx):
             k = max(k, 2)
         else:
             nodes = sorted(set(a + (b - a) * F(rng.randint(0, 60), 60) for _ in range(3 * k)))[:k]
-            rng.shuffle(nodes)
-            nodes = sorted(nodes)
             if len(nodes) < n:
                 continue
+            if rng.random() < 0.5:
+                rng.shuffle(nodes)         # the pairs (node, point) may be listed in any order
             k = len(nodes)
         if kind == "samples":
             src = rand_points(rng, n, dim)
